@@ -223,12 +223,17 @@ func registerArchiveModels(e *Engine) {
 		blk := uf("arHdrBytes", StringS, mem)
 		e.axiom(Eq(StrLen(blk), IntT(60)))
 		e.ghostSet(c.st, "members", IntS, l, uf("tcons", IntS, e.ghostGet(c.st, "members", IntS, l), mem))
+		// the member names, in order, are also recorded on the destination writer
+		uk := e.objKey(e.ghostGet(c.st, "under", IfaceS, l))
+		e.ghostSet(c.st, "arNames", StringS, uk, Concat(e.ghostGet(c.st, "arNames", StringS, uk), hv("Name"), StrT("\n")))
 		return e.pushDown(c, l, blk)
 	}
 	m["(*github.com/blakesmith/ar.Writer).Write"] = func(c *CallCtx) *Term {
 		l, p := c.args[0], c.args[1]
 		odd := Eq(ModE(StrLen(p), IntT(2)), IntT(1))
 		e.ghostSet(c.st, "members", IntS, l, uf("tbody", IntS, e.ghostGet(c.st, "members", IntS, l), p))
+		uk := e.objKey(e.ghostGet(c.st, "under", IfaceS, l))
+		e.ghostSet(c.st, "arBodies", StringS, uk, Concat(e.ghostGet(c.st, "arBodies", StringS, uk), p))
 		err := e.pushDown(c, l, Ite(odd, Concat(p, StrT("\n")), p))
 		return c.ret(Ite(Eq(err, NilIface), StrLen(p), IntT(0)), err)
 	}
